@@ -381,3 +381,90 @@ Example C03_spec_root_go_nonvacuous :
   /\ Trie.Spec.spec_root blake2b_256 Trie.Encode.V1 (Trie.Spec.kv_of_bmap go_m2)
      <> Trie.Spec.spec_root blake2b_256 Trie.Encode.V1 (Trie.Spec.kv_of_bmap go_m0).
 Proof. exact go_hist_nonvacuous. Qed.
+
+From C03 Require DirtyContract.
+
+(* ---- Closer (closer-c04): the Dirty-flag contract that C04_discipline_chain assumes of the trie
+   mutation code, proved for the heap model (DirtyContract.v; repaired code, fx = true).
+
+   C03_mutation_cells (heap level, no invariant needed): one Put / Delete / ClearPrefix /
+   ClearPrefixLimit of a handle of generation g relates the heaps by DirtyContract.ev g: a cell of
+   another generation keeps all node fields AND its Dirty flag (only its cached Merkle value may be
+   filled), a cell of generation g keeps its generation and never goes from dirty to clean, every
+   newly allocated cell has generation g and is dirty.
+
+   C03_dirty_contract: for every fork history hist0 (copy-on-write contract xfrozen_parents) and
+   every handle i of the state st0 it leads to, with ot0 the trie of handle i there: if that trie
+   is persisted (DirtyContract.persisted: each of its nodes is clean and of a generation other
+   than the handle's, i.e. the handle is a Snapshot of a trie written by WriteDirty; implied by the
+   decidable DirtyContract.heap_persisted), then after ANY sequence ops of Put / Delete /
+   ClearPrefix / ClearPrefixLimit on handle i the trie t of handle i satisfies
+   DirtyContract.contract:
+     (0) a node of t is dirty iff it has the handle's generation iff it was allocated since st0;
+     (1) dirty nodes are closed upwards: a node with a dirty child is dirty (a clean node has no
+         dirty descendant, by (2));
+     (2) below a clean node s of t nothing changed: the persisted heap spells the same addressed
+         tree s at the same address (rep (hp m0) s: same partial keys, values, MustBeHashed,
+         children, hence the same encoding and Merkle value), s is a subtree of the persisted trie
+         ot0, and every node of s is clean in both heaps.
+   C03_dirty_contract_handle is the same statement for one handle over any well-formed heap. *)
+Theorem C03_mutation_cells :
+  forall (H : list byte -> list byte) (fd : bool) (m : mem) (hd : handle) (o : DirtyContract.mop)
+         (m1 : mem) (hd1 : handle),
+    Tree.hwf m -> DirtyContract.mexec H fd m hd o = (m1, hd1) ->
+    DirtyContract.ev (h_gen hd) m m1 /\ h_gen hd1 = h_gen hd.
+Proof. exact DirtyContract.mexec_ev. Qed.
+Print Assumptions C03_mutation_cells.
+
+Theorem C03_dirty_contract_handle :
+  forall (H : list byte -> list byte) (fd : bool) (m0 : mem) (hd0 : handle) (ot0 : option Tree.atree)
+         (ops : list DirtyContract.mop) (m : mem) (hd : handle),
+    Tree.hwf m0 -> Inv.htree H m0 hd0 ot0 -> DirtyContract.persisted m0 hd0 ot0 ->
+    DirtyContract.mrun H fd ops m0 hd0 = (m, hd) ->
+    h_gen hd = h_gen hd0
+    /\ DirtyContract.ev (h_gen hd0) m0 m
+    /\ exists ot, Inv.htree H m hd ot
+         /\ forall t, ot = Some t -> DirtyContract.contract m0 ot0 (h_gen hd0) m t.
+Proof. exact DirtyContract.dirty_contract. Qed.
+Print Assumptions C03_dirty_contract_handle.
+
+Theorem C03_dirty_contract :
+  forall (H : list byte -> list byte) (fd fg : bool) (hist0 : list xstep) (i : nat) (hd0 : handle),
+    xfrozen_parents hist0 = true ->
+    let st0 := xrun H true fd hist0 init_state in
+    nth_error (s_hs st0) i = Some hd0 ->
+    exists ot0, Inv.htree H (s_mem st0) hd0 ot0 /\
+    forall ops, DirtyContract.persisted (s_mem st0) hd0 ot0 ->
+      let st := xrun H true fd (map (DirtyContract.xop i) ops) st0 in
+      exists hd ot,
+        nth_error (s_hs st) i = Some hd /\ h_gen hd = h_gen hd0
+        /\ DirtyContract.ev (h_gen hd0) (s_mem st0) (s_mem st)
+        /\ Inv.htree H (s_mem st) hd ot
+        /\ forall t, ot = Some t ->
+             DirtyContract.contract (s_mem st0) ot0 (h_gen hd0) (s_mem st) t.
+Proof. exact DirtyContract.dirty_contract_history. Qed.
+Print Assumptions C03_dirty_contract.
+
+(* the decidable condition implies the hypothesis of the contract theorems *)
+Theorem C03_heap_persisted_ok :
+  forall (m : mem) (hd : handle) (ot : option Tree.atree),
+    Tree.hwf m -> DirtyContract.heap_persisted m (h_gen hd) = true -> DirtyContract.persisted m hd ot.
+Proof. exact DirtyContract.heap_persisted_ok. Qed.
+Print Assumptions C03_heap_persisted_ok.
+
+(* non-vacuity: handle 0 stores two keys and runs WriteDirty, handle 1 is its snapshot (hist0);
+   the heap is persisted for generation 1; handle 1 overwrites one key and deletes an absent one.
+   Afterwards its root (cell 4) and the copied leaf (cell 3) are dirty, generation 1, and the
+   untouched leaf (cell 1) is still a child of the new root, clean, generation 0. *)
+Example C03_dirty_contract_nonvacuous :
+  let st0 := xrun blake2b_256 true true DirtyContract.dc_hist0 init_state in
+  let st := xrun blake2b_256 true true (map (DirtyContract.xop 1) DirtyContract.dc_ops) st0 in
+  xfrozen_parents DirtyContract.dc_hist0 = true
+  /\ nth_error (s_hs st0) 1 = Some (mkH 1 (Some 2%N) false)
+  /\ DirtyContract.heap_persisted (s_mem st0) 1 = true
+  /\ nth_error (s_hs st) 1 = Some (mkH 1 (Some 4%N) false)
+  /\ DirtyContract.dc_info st 4%N = Some (true, 1%N, Some 3%N, Some 1%N)
+  /\ DirtyContract.dc_info st 3%N = Some (true, 1%N, None, None)
+  /\ DirtyContract.dc_info st 1%N = Some (false, 0%N, None, None)
+  /\ DirtyContract.dc_info st0 1%N = Some (false, 0%N, None, None).
+Proof. exact DirtyContract.dc_nonvacuous. Qed.
